@@ -279,3 +279,53 @@ class Effects:
 def fmt(w):
     chain, n, what = w
     return "%s writes %s (`%s`)" % (" -> ".join(chain), what, " ".join(src(n).split())[:70])
+
+
+def _must_reach(E, ci, fn, targets, depth, seen):
+    """every path through fn passes a call that is (or, for each of its resolved callees, must-reaches) a function in `targets`"""
+    from .pysrc import F
+    if depth < 0 or id(fn) in seen:
+        return False
+    seen = seen | {id(fn)}
+    try:
+        f = F(E.repo, ci, fn) if not isinstance(ci, str) else None
+    except Exception:      # noqa
+        f = None
+    if f is None:
+        return False
+    good = []
+    for n in f.g.nodes():
+        d = f.g.data(n)
+        a = d.get("ast")
+        if a is None or d["kind"] != "stmt":
+            continue
+        for c in [x for x in ast.walk(a) if isinstance(x, ast.Call)]:
+            cal = E.callees(ci, fn, c)
+            if not cal:
+                continue
+            ok = True
+            for cci, cfn in cal:
+                q2 = "%s.%s" % (getattr(cci, "name", getattr(cci, "path", cci)), cfn.name)
+                if q2 in targets:
+                    continue
+                if not _must_reach(E, cci, cfn, targets, depth - 1, seen):
+                    ok = False
+                    break
+            if ok:
+                good.append(n)
+                break
+    return bool(good) and f.g.must_pass(f.g.entry, f.g.exit, good)[0]
+
+
+def call_must_reach(E, ci, fn, call, targets, depth=6):
+    """the call certainly executes a function in `targets`: every resolved callee is one, or must-reaches one on all of its paths"""
+    cal = E.callees(ci, fn, call)
+    if not cal:
+        return False
+    for cci, cfn in cal:
+        q2 = "%s.%s" % (getattr(cci, "name", getattr(cci, "path", cci)), cfn.name)
+        if q2 in targets:
+            continue
+        if not _must_reach(E, cci, cfn, targets, depth - 1, frozenset()):
+            return False
+    return True
